@@ -13,6 +13,7 @@ package main
 
 import (
 	"bytes"
+	"context"
 	"encoding/binary"
 	"fmt"
 	"net"
@@ -29,6 +30,7 @@ import (
 	"verifharness/px"
 
 	"github.com/datastax/cql-proxy/codecs"
+	"github.com/datastax/cql-proxy/proxycore"
 	"github.com/datastax/go-cassandra-native-protocol/frame"
 	"github.com/datastax/go-cassandra-native-protocol/message"
 	"github.com/datastax/go-cassandra-native-protocol/primitive"
@@ -393,10 +395,68 @@ func c17FailedSession(ctx *Ctx) {
 	}
 }
 
+// c17SessionRace: the same, in process and with the scheduling made unlucky on purpose: ConnectSession reaches its select
+// only after every pool has failed (hook verifPoint "session-select", 60 ms), so that "all pools done" and "a pool failed
+// critically" are both ready.  A session that is handed out although it has no usable pool must still not crash the
+// process when a request is sent through it (the panic would be in the caller's goroutine: it is recovered and reported).
+func c17SessionRace(ctx *Ctx) {
+	prefix, port := px.Alloc()
+	be := fb.New(prefix, port)
+	be.MaxVersion = primitive.ProtocolVersion4
+	for h := 1; h <= 2; h++ {
+		if err := be.StartHost(h); err != nil {
+			panic(err)
+		}
+	}
+	be.SetTopology(1, 2)
+	defer be.Shutdown()
+	c, cancel := context.WithCancel(context.Background())
+	defer cancel()
+	rp := proxycore.NewReconnectPolicyWithDelays(20*time.Millisecond, 200*time.Millisecond)
+	cluster, err := proxycore.ConnectCluster(c, proxycore.ClusterConfig{Version: primitive.ProtocolVersion4,
+		Resolver: proxycore.NewResolverWithDefaultPort([]string{be.IP(1)}, be.Port), ReconnectPolicy: rp,
+		ConnectTimeout: 3 * time.Second, HeartBeatInterval: 30 * time.Second, IdleTimeout: 60 * time.Second})
+	if err != nil {
+		panic(err)
+	}
+	proxycore.VerifAtPoint.Store(func(name string) {
+		if name == "session-select" {
+			time.Sleep(60 * time.Millisecond)
+		}
+	})
+	defer proxycore.VerifAtPoint.Store(func(string) {})
+	host := &proxycore.Host{Endpoint: proxycore.NewEndpoint(fmt.Sprintf("%s:%d", be.IP(1), be.Port))}
+	for i := 0; i < ctx.Scale(16, 200); i++ {
+		cc, ccancel := context.WithTimeout(c, 3*time.Second)
+		sess, serr := proxycore.ConnectSession(cc, cluster, proxycore.SessionConfig{Version: primitive.ProtocolVersionDse1, NumConns: 1, ReconnectPolicy: rp,
+			ConnectTimeout: 3 * time.Second, HeartBeatInterval: 30 * time.Second, IdleTimeout: 60 * time.Second})
+		ccancel()
+		panicked := ""
+		if serr == nil && sess != nil {
+			func() {
+				defer func() {
+					if x := recover(); x != nil {
+						panicked = fmt.Sprint(x)
+					}
+				}()
+				_ = sess.Send(host, &dummyReq{})
+			}()
+		}
+		note := "session-whose-pools-fail:scheduled-unluckily"
+		if panicked != "" {
+			note += " PROCESS WOULD EXIT: panic: " + panicked
+		}
+		ctx.Emit(hv.L(hv.S("in-process"), hv.I(17), hv.S(fmt.Sprintf("DSEv1 session %d over a v4 backend, ConnectSession delayed before its select", i))),
+			hv.L(hv.Bool(panicked == ""), hv.Bool(true), hv.Bool(true), hv.Bool(true)), note)
+		ctx.Count("kind17:session-race")
+	}
+}
+
 func genC17(ctx *Ctx) {
 	r := ctx.Rng
 	c17SysRows(ctx)
 	c17FailedSession(ctx)
+	c17SessionRace(ctx)
 	c17NoReader(ctx)
 	for ci, cfg := range c17Cfgs {
 		p := startC17(cfg)
